@@ -78,9 +78,9 @@ func (q *fq) param(i int) string {
 
 // atoms --------------------------------------------------------------------------------------
 
-func aP(name string) an.Lin          { return an.LinAtom("P(" + name + ")") }
-func aF(path string) an.Lin          { return an.LinAtom("F(" + path + ")") }
-func aLen(path string) an.Lin        { return an.LinAtom("len(" + path + ")") }
+func aP(name string) an.Lin           { return an.LinAtom("P(" + name + ")") }
+func aF(path string) an.Lin           { return an.LinAtom("F(" + path + ")") }
+func aLen(path string) an.Lin         { return an.LinAtom("len(" + path + ")") }
 func aM(mp string, key an.Lin) an.Lin { return an.LinAtom("M(" + mp + ")[" + key.String() + "]") }
 func aHas(mp string, key an.Lin) an.Lin {
 	return an.LinAtom("has(" + mp + ")[" + key.String() + "]")
@@ -114,11 +114,12 @@ func conj(ls ...an.Lit) an.Conj {
 }
 
 func keepForms(ls ...an.Lin) func(string) bool {
+	// forms are matched by their constant-free base: `len(x) < 1` is about the same quantity as `len(x) <= 0`
 	m := map[string]bool{}
 	for _, l := range ls {
-		m[lit(l, an.SAny).Form] = true
+		m[an.FormBase(lit(l, an.SAny).Form)] = true
 	}
-	return func(f string) bool { return m[f] }
+	return func(f string) bool { return m[an.FormBase(f)] }
 }
 
 // expectCond: the site is reached (from entry, along acyclic paths) iff want, over the kept forms.
